@@ -13,6 +13,47 @@
 
 using iora::core::ThreadPool;
 
+// ---- pthread_create interposer (harness-local): a submitter can be held just before the thread
+// it decided to spawn is created — a legal pre-emption point — so that "spawn decided, worker not
+// yet registered" overlaps stop()/drain(). Not compiled under TSan (it owns pthread_create there).
+static thread_local uint32_t tlsCreateDelayUs = 0;
+static std::atomic<uint64_t> gCreateDelays{0};
+// ---- pthread_mutex_unlock interposer (harness-local): pool worker threads (every thread that is
+// not a harness thread) are occasionally held right AFTER releasing a mutex — e.g. between taking a
+// task off the queue and marking themselves active — a legal pre-emption point.
+static thread_local bool tlsHarnessThread = false;
+static std::atomic<uint32_t> gUnlockDelayUs{0};
+static std::atomic<uint64_t> gUnlockDelays{0}, gUnlockCalls{0}, gLongHolds{0};
+static std::atomic<uint32_t> gHoldNextUnlockUs{0};
+#if !VF_TSAN
+extern "C" int pthread_mutex_unlock(pthread_mutex_t *m)
+{
+  using Fn = int (*)(pthread_mutex_t *);
+  static Fn real = vf::shim::real<Fn>("pthread_mutex_unlock");
+  int r = real(m);
+  uint32_t d = gUnlockDelayUs.load(std::memory_order_relaxed);
+  if (!tlsHarnessThread && gHoldNextUnlockUs.load(std::memory_order_relaxed))
+  {
+    // one long hold armed when teardown begins: longer than the pool's own 200 ms shutdown barrier
+    uint32_t h = gHoldNextUnlockUs.exchange(0);
+    if (h) { gUnlockDelays.fetch_add(1, std::memory_order_relaxed); gLongHolds.fetch_add(1, std::memory_order_relaxed); vf::shim::rawSleepUs(h); }
+  }
+  else if (d && !tlsHarnessThread)
+  {
+    uint64_t n = gUnlockCalls.fetch_add(1, std::memory_order_relaxed);
+    if (vf::shim::mix(n) % 23 == 0) { gUnlockDelays.fetch_add(1, std::memory_order_relaxed); vf::shim::rawSleepUs(d); }
+  }
+  return r;
+}
+extern "C" int pthread_create(pthread_t *t, const pthread_attr_t *a, void *(*fn)(void *), void *arg)
+{
+  using Fn = int (*)(pthread_t *, const pthread_attr_t *, void *(*)(void *), void *);
+  static Fn real = vf::shim::real<Fn>("pthread_create");
+  if (tlsCreateDelayUs) { gCreateDelays.fetch_add(1); vf::shim::rawSleepUs(tlsCreateDelayUs); }
+  return real(t, a, fn, arg);
+}
+#endif
+
 enum Api { ENQ = 0, TRY = 1, RES = 2 };
 enum Kind { QUICK = 0, SLEEP = 1, THROW = 2, NEST = 3, LATCH = 4 };
 
@@ -130,6 +171,7 @@ static bool runScenario(uint64_t seed, uint64_t idx)
   vf::shim::condvarPolicy().permille = 300;
   vf::shim::condvarPolicy().maxDelayUs = parkDelay;
 #endif
+  gUnlockDelayUs = rng.chance(0.4) ? uint32_t(rng.range(50, 1500)) : 0;
   auto onErr = [S](std::exception_ptr) { S->errHandlerCalls++; };
   S->pool = new ThreadPool(S->minT, S->maxT, std::chrono::milliseconds(idleMs), S->qsize, onErr);
   if (pattern == 3) vf::sleepMs(double(idleMs) * 0.9); // submissions land around the idle-exit instant
@@ -137,6 +179,7 @@ static bool runScenario(uint64_t seed, uint64_t idx)
   // sampler: thread count while the pool accepts work
   std::atomic<bool> sampling{true};
   std::thread sampler([S, &sampling]() {
+    tlsHarnessThread = true;
     while (sampling.load())
     {
       uint64_t n = S->pool->getTotalThreadCount();
@@ -154,6 +197,7 @@ static bool runScenario(uint64_t seed, uint64_t idx)
   bool useLatch = pattern == 0 || rng.chance(0.3);
   for (int s = 0; s < nSub; s++)
     subs.emplace_back([S, s, perSub, pattern, useLatch, idleMs, &bar, &subsDone, ss = sseeds[s]]() {
+      tlsHarnessThread = true;
       vf::Rng r(ss);
       bar.wait();
       for (int k = 0; k < perSub; k++)
@@ -163,7 +207,10 @@ static bool runScenario(uint64_t seed, uint64_t idx)
         int kind;
         if (pattern == 0) kind = useLatch ? LATCH : QUICK;
         else { uint64_t x = r.below(20); kind = x < 9 ? QUICK : x < 13 ? SLEEP : x < 16 ? THROW : x < 19 ? NEST : (useLatch ? LATCH : QUICK); }
+        // racing stop(): hold some submitters between "spawn decided" and "worker created"
+        tlsCreateDelayUs = (pattern == 2 && r.chance(0.25)) ? uint32_t(r.range(5000, 90000)) : 0;
         submit(S, id, api, kind, r.next());
+        tlsCreateDelayUs = 0;
         if (pattern == 3) vf::sleepMs(double(idleMs) * (0.5 + 0.1 * double(r.below(10))));
         else if (r.chance(0.1)) vf::sleepMs(0.02 * double(r.below(30)));
       }
@@ -174,7 +221,9 @@ static bool runScenario(uint64_t seed, uint64_t idx)
   if (shutdownKind != 3)
   {
     while (subsDone.load() < nSub) vf::sleepMs(0.1);
-    for (int i = 0; i < 20; i++)
+    // tight bursts: watch the thread count for a moment; otherwise (half of the time) go straight
+    // to teardown so that it begins with tasks still queued and workers between pop and run
+    for (int i = 0; i < ((pattern == 0 || rng.chance(0.5)) ? 20 : 0); i++)
     {
       uint64_t n = S->pool->getTotalThreadCount();
       uint64_t m = S->sampledMaxThreads.load();
@@ -192,6 +241,7 @@ static bool runScenario(uint64_t seed, uint64_t idx)
   std::string stopMsg;
   bool stopOk = true;
   std::thread wd([&shutdownDone, idx, shutdownKind]() {
+    tlsHarnessThread = true;
     uint64_t t0 = vf::nowNs();
     while (!shutdownDone.load())
     {
@@ -205,6 +255,7 @@ static bool runScenario(uint64_t seed, uint64_t idx)
       }
     }
   });
+  if (rng.chance(0.5)) gHoldNextUnlockUs = uint32_t(rng.range(230000, 330000));
   S->stopBeganNs = vf::nowNs();
   if (shutdownKind == 0) { delete S->pool; S->pool = nullptr; }
   else
@@ -229,6 +280,7 @@ static bool runScenario(uint64_t seed, uint64_t idx)
   }
   uint64_t endNs = vf::nowNs();
   (void)endNs;
+  gUnlockDelayUs = 0; gHoldNextUnlockUs = 0;
   vf::sleepMs(1);
 #if !VF_TSAN
   vf::shim::condvarPolicy().maxDelayUs = 0;
@@ -317,6 +369,7 @@ static bool runScenario(uint64_t seed, uint64_t idx)
 
 int main(int argc, char **argv)
 {
+  tlsHarnessThread = true;
   vf::Args a(argc, argv);
   uint64_t seed = a.u("seed", 1), from = a.u("from", 0), count = a.u("count", 10);
   auto &O = vf::out();
@@ -327,6 +380,9 @@ int main(int argc, char **argv)
   }
 #if !VF_TSAN
   O.obs("condvar_prepark_delays", vf::shim::condvarPolicy().delayed);
+  O.obs("thread_create_delays", gCreateDelays.load());
+  O.obs("worker_post_unlock_delays", gUnlockDelays.load());
+  O.obs("worker_long_holds_during_teardown", gLongHolds.load());
 #endif
   O.flush();
   O.line("{\"t\":\"done\"}");
